@@ -459,13 +459,20 @@ func C14(run *Run) {
 // C15: changelog
 func C15(run *Run) {
 	if run.Replay != "" {
+		if replayKind(run.Replay) == "changes" { // horizon / descending walks: the probe is re-run with the recorded seed
+			ev, join := changesProbe(run)
+			judgeChanges(run, append(ev, join()...))
+			return
+		}
 		replayStore(run)
 		return
 	}
+	chEvents, chJoin := changesProbe(run) // horizon and descending order (ChangesTrace); the API-level part waits out a one-minute horizon in the background
 	runHistories(run, histCfg{Backends: []string{"memory", "sqlite"}, Histories: run.Pick(14, 150), Steps: run.Pick(30, 60), Walks: true, Invalid: true})
 	storeModelStates(run)
-	run.Coverage["rule"] = "random write histories (all option combinations, duplicates, missing deletes) on memory and sqlite; after every write every store is dumped: the changelog must extend the previous one by exactly one DELETE per effective delete and one WRITE per effective write (IsLogSuffixFor), replaying it oldest-first must reproduce the tuples (FoldLog) with every entry effective; type-filtered ReadChanges walks must equal the filtered log; design level: LogFaithful + AppendOnly over FGAStoreModel; non-trivial = distinct requests / walks"
-	run.Assumptions = []string{"the horizon offset and descending order are exercised at the datastore interface by C13's driver, not through the API (ReadChanges has no descending option)"}
+	judgeChanges(run, append(chEvents, chJoin()...))
+	run.Coverage["rule"] = "random write histories (all option combinations, duplicates, missing deletes) on memory and sqlite; after every write every store is dumped: the changelog must extend the previous one by exactly one DELETE per effective delete and one WRITE per effective write (IsLogSuffixFor), replaying it oldest-first must reproduce the tuples (FoldLog) with every entry effective; type-filtered ReadChanges walks must equal the filtered log; horizon / descending order: batches written with recorded wall-clock brackets, ReadChanges walked at the datastore interface with 10 horizons x asc/desc x type filters x page sizes and through a server configured with a one-minute horizon (before and after the minute has passed), judged by ChangesTrace (visible part is a prefix, contains everything certainly older and nothing certainly newer than the horizon, descending = exact reverse); design level: LogFaithful + AppendOnly over FGAStoreModel; non-trivial = distinct requests / walks"
+	run.Assumptions = []string{"descending order is exercised at the datastore interface (the API has no descending option); the horizon rule is judged with the wall-clock bracket of each write and a 25 ms clock-granularity slack, entries whose age is within that margin of the horizon may be shown or withheld"}
 }
 
 // C16: isolation
